@@ -469,14 +469,16 @@ pub fn exec(op: &str, a: &[u64]) -> Result<Outcome, String> {
             o.check(exited, "buffer thread did not exit after the consumer dropped the iterator");
             Ok(o)
         }
-        "pipepanic" => {
+        "pipepanic" | "pipepanic2" => {
+            // pipepanic2: the panicking pipe is created after a healthy pipe and after another component replaced
+            // the process-wide panic hook
             let w = r.usize()?;
             let n = r.usize()?;
             let j = r.usize()?;
             r.end()?;
             let exe = std::env::current_exe().map_err(|e| e.to_string())?;
             let mut child = std::process::Command::new(exe)
-                .args(["panic-child", &w.to_string(), &n.to_string(), &j.to_string()])
+                .args([if op == "pipepanic" { "panic-child" } else { "panic-child-later" }, &w.to_string(), &n.to_string(), &j.to_string()])
                 .stdout(std::process::Stdio::null())
                 .stderr(std::process::Stdio::null())
                 .spawn()
@@ -510,6 +512,18 @@ pub fn exec(op: &str, a: &[u64]) -> Result<Outcome, String> {
 }
 
 /// child process of `pipepanic`: item j panics inside the pipeline function
+/// like `panic_child`, but the panicking pipe is not the first one of the process: a healthy pipe ran before, and
+/// some other component then installed its own (non-exiting) panic hook, as `train_bpe` does
+pub fn panic_child_later(w: usize, n: usize, j: usize) -> ! {
+    let healthy: Arc<dyn Fn(u64) -> u64 + Send + Sync> = Arc::new(f);
+    let out: Vec<u64> = (0..5u64).pipe(healthy, 2).collect();
+    if out.len() != 5 {
+        std::process::exit(8);
+    }
+    std::panic::set_hook(Box::new(|_| {}));
+    panic_child(w, n, j)
+}
+
 pub fn panic_child(w: usize, n: usize, j: usize) -> ! {
     let pipeline: Arc<dyn Fn(u64) -> u64 + Send + Sync> = Arc::new(move |x| {
         if x as usize == j {
@@ -755,10 +769,13 @@ pub fn run_c09(ctx: &mut Ctx) {
         }
     }
     let np = ctx.budget(6, 60);
-    for _ in 0..np {
+    for i in 0..np {
         let w = ctx.rng.random_range(1..=4u64);
         let n = ctx.rng.random_range(1..=30u64);
         let j = ctx.rng.random_range(0..=n + 1);
-        ctx.case("pipepanic", &[w, n, j]);
+        ctx.case(if i % 3 == 2 { "pipepanic2" } else { "pipepanic" }, &[w, n, j]);
+    }
+    if ctx.first_shard() {
+        ctx.case("pipepanic2", &[2, 12, 5]);
     }
 }
